@@ -1,5 +1,6 @@
 """C09 A partial renders as its template applied to the designated context."""
 from ..astgen import AG, gen_doc
+from ..gen import enc as _enc0
 from ..gen import enc, session
 from ..rng import Rng
 from .. import ref
@@ -106,6 +107,29 @@ def generate(rng, n, tier="quick"):
         c, m = r
         c["id"] = "%s-%06d" % (ID, i)
         out.append((c, m))
+    # the family of the Lean theorem C09.inline_partial_call_renders_the_partial: L ++ {{> name}} ++ R with the tag NOT alone on its
+    # line, L not ending in a blank, `name` any partial name, registered as a plain text P: the closed form L ++ P ++ R (exact)
+    from .C03 import _no_open, rand_text
+    tr = rng.fork("thm")
+    for k in range(60 if tier == "quick" else 2000):
+        r = tr.fork(k)
+        L = _no_open(rand_text(r, r.range(0, 8)))
+        while L and (L[-1] in " \t" or L.endswith("\\") or L.endswith("{")):
+            L = L[:-1]
+        R = _no_open(rand_text(r, r.range(0, 8)))
+        P = _no_open("".join(r.pick(list("ab}<& \t") + ["\n", "\r\n", "\u00e9", "{"]) for _ in range(r.range(1, 10))))
+        if P.endswith("\\") or P == "":
+            P += "x"
+        lt = L.rstrip(" \t")
+        rt = R.lstrip(" \t")
+        # something other than blanks shares the line with the tag, before it or behind it
+        if not ((lt != "" and lt[-1] not in "\n\r") or (rt != "" and rt[0] not in "\n\r")):
+            L = L + "x"
+        pname = r.pick(["p", "p", "dir/name.hbs", "\u00e9-1", "a.b", "x_y", "0", "\U0001F600", "p/q/r", "\u0080", "-", "_", "this", "else", "if"])
+        ops = [{"op": "reg_string", "reg": 0, "name": pname, "src": P},
+               {"op": "render", "reg": 0, "api": "render_template", "src": L + "{{> %s}}" % pname + R, "data": _enc0({})}]
+        c = {"kind": "session", "regs": [{"escape": "none"}], "ops": ops, "id": "%s-thm%05d" % (ID, k)}
+        out.append((c, {"oracle": ["must", L + P + R]}))
     # directed: self inclusion, inline precedence, dynamic name
     def directed(idn, templates, data, expect):
         c = session({"escape": "none"}, templates, {"api": "render", "name": "main"}, data)
